@@ -148,6 +148,15 @@ def check_run(toks, obs):
         if r in live and s < len(live[r]):
             live[r][s].append(x)
     val_tags = [str(t) for e in evs if e[0] == "V" for t in (pool[int(e[2])]["val"] or [])]
+    # execution too runs roots dependency first (also the roots a DSL registered during the previous pass)
+    order = []
+    for e in evs:
+        if e[0] == "D" and e[1] not in order:
+            order.append(e[1])
+    for i, a in enumerate(order):
+        for b in order[i + 1:]:
+            if b in reach(dep, a) and a not in reach(dep, b) and b in registered:
+                return ("run/exec-order", "the DSL of root %s is executed before that of its dependency %s" % (a, b), "%s first" % b)
     for ph, key in (("P", "prep"), ("V", "val"), ("F", "fin")):
         if ph == "F" and val_tags:
             continue
